@@ -1,7 +1,8 @@
 """Translator, ANSI fallback of anstyle-wincon (C17):
 
-  crates/anstyle-wincon/src/ansi.rs    shape of `write_colored` (fg, bg, ONE data `write`, reset;
-                                       the `non_default` guard; every `?`)
+  crates/anstyle-wincon/src/ansi.rs    `write_colored` is TRANSLATED by tools/gen_fn_wincon_ansi.py
+                                       (Generated/WinconAnsiFn.v, Proofs/WinconAnsiGen.v); the whole-body
+                                       regex pin this file used to carry for it is gone
   crates/anstyle/src/reset.rs          the RESET string and that `Reset` displays as one fragment
   crates/anstyle/src/color.rs          `AnsiColor::render_fg/bg` display as ONE fragment (the
                                        strings themselves are in Generated/Style.v)
@@ -31,24 +32,6 @@ def _balanced(src, i, what, gm):
     raise gm.GenError("%s: unbalanced braces" % what)
 
 
-# write_colored, whitespace removed; identifiers of the two locals are free
-_WRITE_COLORED_SHAPE = (
-    r"let(?P<nd>\w+)=fg\.is_some\(\)\|\|bg\.is_some\(\);"
-    r"if(?P=nd)\{"
-    r"ifletSome\(fg\)=fg\{write!\(stream,\"\{\}\",fg\.render_fg\(\)\)\?;\}"
-    r"ifletSome\(bg\)=bg\{write!\(stream,\"\{\}\",bg\.render_bg\(\)\)\?;\}"
-    r"\}"
-    r"let(?P<wr>\w+)=stream\.write\(data\)\?;"
-    r"if(?P=nd)\{write!\(stream,\"\{\}\",anstyle::Reset\.render\(\)\)\?;\}"
-    r"Ok\((?P=wr)\)"
-)
-
-_WRITE_COLORED_HEADER = (
-    r"pubfnwrite_colored<S:std::io::Write\+\?Sized>\("
-    r"stream:&mutS,fg:Option<anstyle::AnsiColor>,bg:Option<anstyle::AnsiColor>,data:&\[u8\],?\)"
-    r"->std::io::Result<usize>"
-)
-
 _TRAIT_SIG = (
     r"fnwrite_colored\(&mutself,fg:Option<anstyle::AnsiColor>,bg:Option<anstyle::AnsiColor>,data:&\[u8\],?\)"
     r"->std::io::Result<usize>"
@@ -66,25 +49,6 @@ _BODIES = [
 
 def register(generators, gm):
     GenError = gm.GenError
-
-    def check_ansi_rs():
-        src = gm.strip_comments(gm.read("crates/anstyle-wincon/src/ansi.rs"))
-        m = re.search(r"pub\s+fn\s+write_colored\b", src)
-        if not m:
-            raise GenError("ansi.rs: pub fn write_colored not found")
-        i = src.find("{", m.end())
-        if i < 0:
-            raise GenError("ansi.rs: write_colored has no body")
-        j = _balanced(src, i, "ansi.rs write_colored", gm)
-        header = _nows(src[m.start():i])
-        if not re.fullmatch(_WRITE_COLORED_HEADER, header):
-            raise GenError("ansi.rs: write_colored signature changed: %r" % header[:200])
-        body = _nows(src[i + 1:j])
-        if not re.fullmatch(_WRITE_COLORED_SHAPE, body):
-            raise GenError("ansi.rs: write_colored no longer has the shape "
-                           "`non_default guard; fg; bg; one stream.write(data); guarded reset; Ok(written)`: %r" % body[:400])
-        if len(re.findall(r"\bfn\s+write_colored\b", src)) != 1:
-            raise GenError("ansi.rs: more than one write_colored")
 
     def reset_bytes():
         src = gm.strip_comments(gm.read("crates/anstyle/src/reset.rs"))
@@ -173,7 +137,6 @@ def register(generators, gm):
         return out
 
     def gen_wincon_ansi():
-        check_ansi_rs()
         check_color_rs()
         rst = reset_bytes()
         imp = impls()
@@ -181,17 +144,9 @@ def register(generators, gm):
         o.append("From Coq Require Import NArith List.\nImport ListNotations.\nLocal Open Scope N_scope.\n")
         o.append("(* ---- reset.rs: RESET (Display for Reset = one f.write_str(RESET), shape checked) ---- *)\n")
         o.append("Definition wa_reset_str : list N := %s.\n" % gm.coq_bytes(rst))
-        o.append("(* ---- ansi.rs: write_colored, shape checked by the translator:\n"
-                 "     let non_default = fg.is_some() || bg.is_some();\n"
-                 "     if non_default { if let Some(fg) = fg { write!(fg.render_fg())?; } if let Some(bg) = bg { write!(bg.render_bg())?; } }\n"
-                 "     let written = stream.write(data)?;\n"
-                 "     if non_default { write!(Reset.render())?; }\n"
-                 "     Ok(written)\n"
-                 "   The order of the inner operations and which of them the guard covers: ---- *)\n")
+        o.append("(* ---- ansi.rs: the four inner operations of write_colored (names used by Proofs/WinconAnsi.v; the function\n"
+                 "     itself is translated: Generated/WinconAnsiFn.v) ---- *)\n")
         o.append("Inductive wa_op : Set := WaOpFg | WaOpBg | WaOpData | WaOpReset.\n")
-        o.append("(* (operation, guarded by non_default, done with write_all (write!) rather than one write) *)")
-        o.append("Definition wa_ops : list (wa_op * bool * bool) :=\n"
-                 "  [(WaOpFg, true, true); (WaOpBg, true, true); (WaOpData, false, false); (WaOpReset, true, true)].\n")
         o.append("(* ---- stream.rs: impl WinconStream for <T> and what each body calls ---- *)\n")
         o.append("Inductive wa_cfg : Set := WaAny | WaUnix | WaWin.")
         o.append("Inductive wa_body : Set :=\n"
